@@ -40,6 +40,21 @@ def check(ck):
     from . import helpers as H
     ck.rule('R19.7', 'nested_set builds the update of one variable: walk keys[:-1] with setdefault, store under keys[-1]')
     H.nested_set_shape(ck, 'R19.7')
+    from . import c08
+    ck.rule('R19.8', "an event reaches its variable as a set: the "
+            "'_updater': 'set' carried by the update is honoured whatever "
+            'updater the variable declares, the value carried is used as '
+            'it is, and the updates of two ports that fall due together '
+            'are combined without losing one (deep_merge_multi_update '
+            'keeps its recursion skeleton)')
+    ck.shared('R19.8', "an event reaches its variable as a set: the "
+              "'_updater': 'set' carried by the update is honoured "
+              'whatever updater the variable declares and the updates of '
+              'two ports that fall due together are combined without '
+              'losing one',
+              c08.r08_1, c08.r08_11,
+              lambda c: H.deep_merge_shape(c, 'R19.8',
+                                           'deep_merge_multi_update'))
 
 
 def process_classes(ck):
